@@ -46,6 +46,9 @@ func c12Gen(r *driver.Rand, thorough bool) *driver.Plan {
 		p.Producers[r.Intn(k)].NoClose = true // then the output must never close
 	}
 	genSched(r, p)
+	if r.Chance(1, 8) {
+		p.SetX("uses", 2)
+	}
 	return p
 }
 
@@ -79,7 +82,9 @@ func c12Enum(thorough bool) []*driver.Plan {
 	return out
 }
 
-func c12Build(e *driver.Env) { e.Data = BuildStage(e, "C12.a") }
+func c12BuildOne(e *driver.Env) { e.Data = BuildStage(e, "C12.a") }
+
+func c12Build(e *driver.Env) { driver.Phased(e, c12BuildOne, c12Final) }
 
 func c12Final(e *driver.Env) {
 	s := e.Data.(*Sys)
